@@ -170,6 +170,21 @@ func (e *Eng) evalCallInner(st *State, call *ast.CallExpr) []*Val {
 		return vals
 	}
 	key, sig, recvExpr := calleeKey(e.info, call)
+	// sync/atomic.AddX(&lvalue, delta): modelled as a sequential read-modify-write of the addressed location
+	if strings.HasPrefix(key, "sync/atomic.Add") && len(call.Args) == 2 {
+		if u, ok := ast.Unparen(call.Args[0]).(*ast.UnaryExpr); ok && u.Op == token.AND {
+			old := e.eval(st, u.X)
+			delta := e.eval(st, call.Args[1])
+			if old.Sort == "Int" && delta.Sort == "Int" {
+				t := e.info.TypeOf(u.X)
+				nv := scalar(e.define("a", "Int", e.wrap(t, fmt.Sprintf("(+ %s %s)", old.T, delta.T))), "Int", t)
+				e.assign(st, u.X, nv)
+				st.counters[key] = fmt.Sprintf("(+ %s 1)", counterOf(st, key))
+				e.lastArgs = []*Val{old, delta}
+				return []*Val{nv}
+			}
+		}
+	}
 	cls, text := e.anchorClauses(call)
 	if sig == nil {
 		e.gap("call of unknown kind %s", e.src(call))
@@ -272,8 +287,22 @@ func (e *Eng) evalCallInner(st *State, call *ast.CallExpr) []*Val {
 		e.retCount = map[string]int{}
 	}
 	e.retCount[key]++
+	// instantiated result types (generic callees): take them from the call expression
+	resT := make([]types.Type, sig.Results().Len())
+	for i := range resT {
+		resT[i] = sig.Results().At(i).Type()
+	}
+	if ct := e.info.TypeOf(call); ct != nil {
+		if tup, ok := ct.(*types.Tuple); ok && tup.Len() == len(resT) {
+			for i := range resT {
+				resT[i] = tup.At(i).Type()
+			}
+		} else if len(resT) == 1 {
+			resT[0] = ct
+		}
+	}
 	for i := 0; i < sig.Results().Len(); i++ {
-		rv := e.freshVal(fmt.Sprintf("ret.%s.%d", shortKey(key), i), sig.Results().At(i).Type())
+		rv := e.freshVal(fmt.Sprintf("ret.%s.%d", shortKey(key), i), resT[i])
 		results = append(results, rv)
 		nm := fmt.Sprintf("ret.%s.%d", shortKey(key), i)
 		if e.retCount[key] > 1 {
